@@ -530,7 +530,7 @@ func init() {
 		Assumptions: []string{"ground truth is the disk image bytes and an independent sample-table expansion (vsim/ref)", "only ranges inside the mdat payload with size>=1 are issued",
 			"data+EOF, short and zero reads are legal io.Reader behaviour and are part of the exact configuration"},
 		Real: realLib, Stub: stubIO, RealNoFault: realNoFault,
-		Runs:       map[string]int{"quick": 40000, "thorough": 4000000},
+		Runs:       map[string]int{"quick": 150000, "thorough": 8000000},
 		HangBudget: 60e9,
 		Setup:      c08Setup,
 		Run:        c08Run,
